@@ -26,7 +26,7 @@ for path in paths:
         tl = f.get('tline')
         if not sh or not tl:
             continue
-        if tl - 1 >= len(lines) or not lines[tl - 1].startswith('//@@ fn') or ('name=%s' % f['name'] not in lines[tl - 1] and 'as=%s' % f['name'] not in lines[tl - 1]):
+        if tl - 1 >= len(lines) or not lines[tl - 1].startswith('//@@ fn') or ('name=%s' % f['name'] not in lines[tl - 1] and 'as=%s' % f['name'] not in lines[tl - 1] and 'id=%s' % f['name'] not in lines[tl - 1]):
             continue   # a block of an included file
         ins[tl] = sh
     out = []
